@@ -25,6 +25,9 @@ func (e *executor[R]) Apply(innerFn func(failsafe.Execution[R]) *common.PolicyRe
 					ExecutionAttempt: exec.(policy.ExecutionInternal[R]).CopyWithResult(nil),
 				})
 			}
+			if canceled, cancelResult := exec.(policy.ExecutionInternal[R]).IsCanceledWithResult(); canceled && !errors.Is(err, ErrExceeded) {
+				return cancelResult
+			}
 			return internal.FailureResult[R](err)
 		}
 		return innerFn(exec)
